@@ -24,10 +24,10 @@ sys.path.insert(0, HERE)
 
 from polarlint.model import Repo, AnalysisError  # noqa: E402
 from polarlint.core import Ob, Rule, Result, run_rules, run_mutants, violation_keys, write_evidence, load_known  # noqa: E402
-from polarlint.rules import conformance, libcontract, state, splice, pipeline, validate, flow, bayes, mechanisms, formulas, lattice  # noqa: E402
+from polarlint.rules import conformance, libcontract, state, splice, pipeline, validate, flow, bayes, mechanisms, formulas, lattice, discipline, stats  # noqa: E402
 
 R = {}
-for mod in (conformance, libcontract, state, splice, pipeline, validate, flow, bayes, mechanisms, formulas, lattice):
+for mod in (conformance, libcontract, state, splice, pipeline, validate, flow, bayes, mechanisms, formulas, lattice, discipline, stats):
     for k, v in mod.RULES.items():
         if k in R:
             raise SystemExit(f"duplicate rule id {k}")
@@ -86,6 +86,14 @@ PROPERTIES = {
         specs=[S("GUARD"), S("ORIGGUARD"), S("AFTERLOOP"), S("IMPLIED"), S("MARKLAST"), S("STATE", r"cli/common|program/condition|classmutable")],
         clause="only the source guard is marked as guard; the termination indicator derives from the source guard; after-loop arms condition on termination and take the "
                "limit; the conditional moment is a ratio over one negated-guard indicator. NOT decided: limits, divergence."),
+    "C11": dict(
+        specs=[S("TAILBOUNDS"), S("KINDCONV"), S("CONVERSIONS"), S("AFTERLOOP", r"cumulant|central|tail_bound|get_all_cumulants"), S("INVINPUTS", r"identifier")],
+        clause="the raw->cumulant recursion, the raw->central binomial sum and comb(n,k) are the textbook formulas (identities of rational functions over the source expressions, loop ranges included); "
+               "Markov bounds are E(M**k)/a**k for every requested order and the lower bound is (m1-a)**2/(m2-2*a*m1+a**2); cumulant / central goals use their own conversion, report the entry of the goal's "
+               "order and request the raw moments up to it; their after-loop arms condition on termination and take the limit; goal kinds are stored under their own identifiers. "
+               "NOT decided: the Gram-Charlier / Cornish-Fisher expansions and the Bell / Hermite polynomials, validity of the bounds' assumptions, any reported value.",
+        technique="source-level identities: the summands, start values and ranges of the conversion loops and the bound formulas are normalised to exact rational functions over named atoms (integer exponents distribute) "
+                  "and compared with the textbook forms; role-based discovery (dict parameter, result table, loop indices); CFG control dependence of the after-loop arms"),
     "C12": dict(
         specs=[S("D2"), S("D1"), S("SAMPLERS"), S("ENUM"), S("SIMULATOR"), S("VOCAB", r"evaluate_right_side|literal")],
         clause="operator tables of analysis and simulator agree; boolean evaluation equals the indicator; samplers use the moment side's parameter convention and "
@@ -107,6 +115,14 @@ PROPERTIES = {
                S("ORDER", r"cond2arithm=True"), S("COND2ARITHM"), S("FLAGS")],
         clause="options are written only by the CLI setter and read at call time; settings<->options<->setter census; every root source is complete and approximations clear "
                "the flag; cond2arithm keeps every assignment; categorical expansion keeps index/value/probability aligned. NOT decided: equality of closed forms across settings."),
+    "C18": dict(
+        specs=[S("EXCEPT"), S("FALLTHROUGH"), S("REBUILD"), S("COND2ARITHM"), S("VOCAB", r"dispatch|mixing"), S("D2"), S("ABSTRACT"), S("MGF")],
+        clause="the safety half only (`whatever Polar refuses, it refuses with an error; a refusal never takes the form of a wrong or partial result`): no exception handler swallows an exception "
+               "(each re-raises on every path or is a reviewed complete fallback); no function returns a value on some paths and ends without one on others unless its callers test for the missing value; "
+               "section rebuilders and cond2arithm raise for what they cannot convert instead of dropping it; dispatchers on operators / function names are total or end in raise; exponentials and mgf uses sit behind raising checks. "
+               "NOT decided: the liveness half (that every loop within the documented restrictions is accepted and yields a closed form).",
+        technique="error-discipline analysis: census and path classification of all exception handlers, CFG exit analysis of every value-returning function (implicit None) with call-site awareness, "
+                  "loop-path exhaustiveness of rebuilders, dispatcher totality, dominance of raising validators"),
     "C19": dict(
         specs=[S("SPLICE", r"inputparser/"), S("GRAMMAR"), S("PARSER"), S("FLOAT")],
         clause="parser templates are precedence-safe; arithmetic is re-stringified token by token; probability vectors and assigned names are validated; floats become "
